@@ -18,10 +18,12 @@ pub mod c06;
 pub mod c07;
 pub mod c08;
 pub mod c09;
+pub mod c10;
 pub mod c11;
 pub mod c12;
 pub mod c13;
 pub mod c14;
+pub mod c15;
 pub mod c16;
 pub mod c17;
 pub mod c19;
@@ -34,9 +36,16 @@ pub mod c25;
 pub mod c26;
 pub mod c27;
 pub mod c28;
+pub mod c29;
+pub mod c30;
+pub mod c31;
+pub mod c32;
+pub mod c33;
+pub mod c34;
 pub mod c35;
 pub mod c36;
 pub mod objgen;
+pub mod recdev;
 pub mod simrig;
 
 pub fn all() -> Vec<PropDef> {
@@ -50,10 +59,12 @@ pub fn all() -> Vec<PropDef> {
         PropDef { id: "C07", run: c07::run, replay: c07::replay },
         PropDef { id: "C08", run: c08::run, replay: c08::replay },
         PropDef { id: "C09", run: c09::run, replay: c09::replay },
+        PropDef { id: "C10", run: c10::run, replay: c10::replay },
         PropDef { id: "C11", run: c11::run, replay: c11::replay },
         PropDef { id: "C12", run: c12::run, replay: c12::replay },
         PropDef { id: "C13", run: c13::run, replay: c13::replay },
         PropDef { id: "C14", run: c14::run, replay: c14::replay },
+        PropDef { id: "C15", run: c15::run, replay: c15::replay },
         PropDef { id: "C16", run: c16::run, replay: c16::replay },
         PropDef { id: "C17", run: c17::run17, replay: c17::replay17 },
         PropDef { id: "C18", run: c17::run18, replay: c17::replay18 },
@@ -67,6 +78,12 @@ pub fn all() -> Vec<PropDef> {
         PropDef { id: "C26", run: c26::run, replay: c26::replay },
         PropDef { id: "C27", run: c27::run, replay: c27::replay },
         PropDef { id: "C28", run: c28::run, replay: c28::replay },
+        PropDef { id: "C29", run: c29::run, replay: c29::replay },
+        PropDef { id: "C30", run: c30::run, replay: c30::replay },
+        PropDef { id: "C31", run: c31::run, replay: c31::replay },
+        PropDef { id: "C32", run: c32::run, replay: c32::replay },
+        PropDef { id: "C33", run: c33::run, replay: c33::replay },
+        PropDef { id: "C34", run: c34::run, replay: c34::replay },
         PropDef { id: "C35", run: c35::run, replay: c35::replay },
         PropDef { id: "C36", run: c36::run, replay: c36::replay },
     ]
